@@ -240,7 +240,8 @@ fn drop(instructions: &mut VecCursor<SymbolicByteCode>, lines: &mut VecCursor<u1
   lines.copy_cursors();
   let mut drop_count: u8 = 1;
 
-  while instructions.peek_next() == Some(SymbolicByteCode::Drop) {
+  // DropN carries a u8, a longer run continues with a drop instruction of its own
+  while drop_count < u8::MAX && instructions.peek_next() == Some(SymbolicByteCode::Drop) {
     instructions.inc_reader(1);
     drop_count += 1;
   }
